@@ -80,7 +80,7 @@ static long		vh_cases_run = 0 ;
 static int		vh_nsamples = 0 ;
 static int		vh_case_secs = 60 ;		/* wall watchdog per case */
 static int		vh_nostride_next = 0 ;	/* set before vh_case: this case is exempt from --stride sampling (always part of memcheck runs) */
-static int		vh_stride = 1 ;			/* --stride K: run every K-th case of this shard only (memcheck runs) */
+static int		vh_stride = 1 ;			/* --stride K: run a fixed 1/K sample of the cases only (memcheck runs) */
 static long		vh_vg_errors = 0 ;
 static int		vh_slow = 1 ;			/* watchdog multiplier: 40 under valgrind */
 static int		vh_case_cpu_secs = 0 ;	/* > 0: CPU-time watchdog per case (ITIMER_VIRTUAL): load-independent, so it needs no confirmation run */
@@ -260,6 +260,18 @@ static void vh_rearm (void)
 {	alarm (vh_case_secs * vh_slow) ;
 	if (vh_case_cpu_secs > 0) { struct itimerval itv ; memset (&itv, 0, sizeof (itv)) ; itv.it_value.tv_sec = vh_case_cpu_secs * vh_slow ; setitimer (ITIMER_VIRTUAL, &itv, NULL) ; }
 }
+/* under memcheck: how many bytes of [p, p+n) hold undefined values; they are marked defined afterwards so that the harness may look at them without
+** the report being pinned on the harness.  0 outside valgrind */
+static long vh_undefined_bytes (void *p, size_t n)
+{
+#ifdef VH_VALGRIND
+	if (RUNNING_ON_VALGRIND && n > 0)
+	{	unsigned char *vb = malloc (n) ; long bad = 0 ; size_t i ;
+		if (vb && VALGRIND_GET_VBITS (p, vb, n) == 1) for (i = 0 ; i < n ; i++) if (vb [i]) bad++ ;
+		free (vb) ; (void) VALGRIND_MAKE_MEM_DEFINED (p, n) ; return bad ; }
+#endif
+	(void) p ; (void) n ; return 0 ;
+}
 /* under valgrind: when the error count grew during the case that just ended, print a marker into valgrind's log so that the
 ** driver can attribute the error blocks above it to that case */
 static void vh_vg_poll (void)
@@ -278,7 +290,7 @@ static int vh_case (const char *fmt, ...)
 {	long idx = vh_next_idx++ ; va_list ap ;
 	if (vh_only >= 0) { if (idx != vh_only) { vh_nostride_next = 0 ; return 0 ; } }
 	else if (idx < vh_from || (idx % vh_nshards) != vh_shard) { vh_nostride_next = 0 ; return 0 ; }
-	else if (vh_stride > 1 && !vh_nostride_next && ((idx / vh_nshards) % vh_stride) != 0) { vh_nostride_next = 0 ; return 0 ; }
+	else if (vh_stride > 1 && !vh_nostride_next && (vh_mix ((uint64_t) idx * 0x9E3779B97F4A7C15ull + 77) % (uint64_t) vh_stride) != 0)	/* a fixed pseudo-random 1/K sample of the case indices: the same whatever the number of shards */ { vh_nostride_next = 0 ; return 0 ; }
 	vh_nostride_next = 0 ;
 	vh_vg_poll () ;
 	vh_case_idx = idx ;
